@@ -478,7 +478,7 @@ fn wrap(schema: &Schema, d: &Value) -> Value {
 }
 
 /// what one front end does with one abstract history step
-fn render(front: &str, h: &Value, schema: &Schema, http_bulk: bool) -> Vec<Value> {
+fn render(front: &str, h: &Value, schema: &Schema, http_bulk: bool, refresh: bool) -> Vec<Value> {
   let wrapped = |docs: &Value| -> Vec<Value> { docs.as_array().map(|a| a.iter().map(|d| wrap(schema, d)).collect()).unwrap_or_default() };
   match (front, h["op"].as_str().unwrap_or("")) {
     ("cli", "add") => vec![json!({"kind": if h["update"] == json!(true) { "cli_update" } else { "cli_add" }, "docs": wrapped(&h["docs"])})],
@@ -487,7 +487,7 @@ fn render(front: &str, h: &Value, schema: &Schema, http_bulk: bool) -> Vec<Value
     ("cli", "compact") => vec![json!({"kind":"cli_compact"})],
     ("http", "add") => vec![json!({"kind": if http_bulk { "http_bulk" } else { "http_add" }, "docs": wrapped(&h["docs"])})],
     ("http", "delete") => vec![json!({"kind":"http_delete","ids": h["ids"]})],
-    ("http", "commit") => vec![json!({"kind":"http_commit","refresh": false})],
+    ("http", "commit") => vec![json!({"kind":"http_commit","refresh": refresh})],
     ("http", "compact") => vec![json!({"kind":"http_compact"})],
     ("ffi", "add") => wrapped(&h["docs"]).into_iter().map(|d| json!({"kind":"ffi_add","doc": d})).collect(),
     ("ffi", "commit") => vec![json!({"kind":"ffi_commit"})],
@@ -539,7 +539,7 @@ impl Prop for C25 {
     "case = (schema, abstract history of upsert batches / deletes / commits / compaction with occasional rejected documents, searches as JSON requests, CLI flag sets and FFI argument tuples); the history runs through the CLI binary, the HTTP service and the FFI, each next to a twin directory driven by the equivalent Rust API calls; every front-end operation and every search is one evaluation; an evaluation is non-trivial when it changes or reads non-empty contents (a commit that applies ≥ 1 operation, a rejected batch, a search with ≥ 1 hit or an aggregation, a rejected flag set); distinct = distinct (front end, operation/search, history prefix) JSON"
   }
   fn count(&self, tier: Tier) -> usize {
-    tier.pick(20, 300)
+    tier.pick(20, 200)
   }
   fn gen(&self, rng: &mut Rng, tier: Tier, i: usize) -> Value {
     let schema_i = i % 3; // 0 default text, 1 rich (tag/year), 2 non-stored fast field (compaction refuses)
@@ -586,7 +586,7 @@ impl Prop for C25 {
     let requests: Vec<Value> = (0..n_s).map(|_| gen_request(rng, rich)).collect();
     let flags: Vec<Value> = (0..n_s).map(|_| gen_cli_flags(rng, rich)).collect();
     let ffi_calls: Vec<Value> = (0..n_s).map(|_| gen_ffi_call(rng)).collect();
-    json!({"schema": schema_i, "http_bulk": rng.chance(1, 2), "history": hist, "requests": requests, "cli_flags": flags, "ffi_calls": ffi_calls})
+    json!({"schema": schema_i, "http_bulk": rng.chance(1, 2), "refresh_on_commit": rng.chance(1, 2), "history": hist, "requests": requests, "cli_flags": flags, "ffi_calls": ffi_calls})
   }
 
   fn run_case(&self, drv: &mut Driver, case: &Value, s: &mut Summary) {
@@ -603,6 +603,7 @@ impl Prop for C25 {
     let schema: Schema = serde_json::from_value(schema_json.clone()).expect("schema");
     let hist = case["history"].as_array().cloned().unwrap_or_default();
     let http_bulk = case["http_bulk"] == json!(true);
+    let refresh = case["refresh_on_commit"] == json!(true);
     let schema_file = root.join("schema.json");
     std::fs::write(&schema_file, schema_json.to_string()).unwrap();
 
@@ -623,7 +624,7 @@ impl Prop for C25 {
       };
       let init_ok = match front {
         "cli" => cli(&bin, &["init", &fdir_s, &schema_file.to_string_lossy()]).ok,
-        "http" => match Server::start(&fdir, &ServerCfg::default()) {
+        "http" => match Server::start(&fdir, &ServerCfg { refresh_on_commit: refresh, ..Default::default() }) {
           Ok(sv) => {
             let r = post_json(sv.port, "/init", &schema_json);
             server = Some(sv);
@@ -658,7 +659,7 @@ impl Prop for C25 {
       // ---- the history ----
       let mut aborted = false;
       for (k, h) in hist.iter().enumerate() {
-        let ops = render(front, h, &schema, http_bulk);
+        let ops = render(front, h, &schema, http_bulk, refresh);
         for fop in ops {
           let sub = json!({"front": front, "schema": case["schema"], "op": fop, "after": k});
           // model vs the harness's table of equivalent calls
@@ -892,6 +893,8 @@ impl Prop for C25 {
               let agree = match (&lib, out.ok, &front_json) {
                 (idx::Outcome::Ok(l), true, Some(f)) => results_close(f, l).is_ok(),
                 (idx::Outcome::Err(_), false, _) => true,
+                // the library panics on this request (C16): the CLI process dies with it
+                (idx::Outcome::Panic(_), false, _) => true,
                 _ => false,
               };
               if !agree {
